@@ -44,6 +44,62 @@ CHECKS = {
             "3/C18"),
 }
 
+STATEFUL_NOTE = ("Trusted: the simulated cluster (vf.simkafka, Kafka's documented broker rules, speaking through independent wire "
+                 "tables and an independent record codec), the virtual-time loop (timers fire only at loop-iteration boundaries; "
+                 "asyncio's FIFO ready order is kept), the oracles. Behaviours needing more simultaneous deviations than the "
+                 "budget vectors allow are not covered; the evidence lists the vectors completed and any cap hit.")
+
+CHECKS.update({
+    "C01": (MC, "stateless deviation-bounded exhaustive exploration of the real producer (schedules x retriable faults) "
+                "under a controlled virtual-time event loop against a simulated cluster",
+            "The real AIOKafkaProducer (accumulator, sender, transaction manager, client, connections) runs on a virtual-time "
+            "asyncio loop against a simulated 2-3 broker cluster. Every execution whose deviation counts (r reorderings of "
+            "deliveries/application calls/timers, p events injected mid-cascade, f faults from {connection drop before/after "
+            "apply, lost reply, NOT_LEADER, LEADER_NOT_AVAILABLE, UNKNOWN_TOPIC_OR_PARTITION, REQUEST_TIMED_OUT, "
+            "NOT_ENOUGH_REPLICAS(_AFTER_APPEND), leader move}) fit a budget vector is run from scratch, from a net-eager and "
+            "an app-eager baseline, for idempotent / acks=1 / acks=all x single-record / lingering multi-record / gzip batches "
+            "and sequence counters starting at 2^31-3..2^31-1. Monitors: no second ProduceRequest for a partition written "
+            "while one is unanswered on a live connection; presented sequences gap-free, never reused for other records, "
+            "inside 0..2^31-1; log content = accepted sends, per-task order kept, idempotent => at most once and "
+            "acknowledged => exactly once, otherwise duplicates only as whole batches.",
+            STATEFUL_NOTE, "3/C01"),
+    "C02": (MC, "stateless deviation-bounded exhaustive exploration of the real producer (configuration grid x schedules x "
+                "faults x flush/stop placement) against a simulated cluster",
+            "Same engine as C01 with the future oracles: every future returned by send()/send_batch() resolves exactly once "
+            "within the horizon; a successful RecordMetadata names the (partition, offset) where that record's key/value sits "
+            "in the simulated log, with the stored timestamp (user timestamp under CreateTime, broker time under "
+            "LogAppendTime) and the topic's timestamp type; acks=0 resolves to None; flush()/stop(), placed by the explorer "
+            "at every choice point (budget k), return only after every previously accepted future is done; idempotent + "
+            "retriable faults never fail a record. Grid: acks {0,1,all,idempotent} x Produce v0..v7 x CreateTime/LogAppendTime "
+            "x batch shapes (equal / increasing / decreasing / default timestamps, two partitions).",
+            STATEFUL_NOTE + " Default timestamps are stamped by the C wall clock inside the compiled builder, which the "
+            "harness does not own: for those records only 'a timestamp is reported' is demanded.", "3/C02"),
+    "C09": (EX, "exhaustive bounded input enumeration: both builders x three readers vs an independent reference codec",
+            "Every record sequence of length 0..3 over the boundary grid (null/empty/1/63/64/8191/8192-byte keys and values, "
+            "header shapes, timestamp shapes) x magic 0/1/2 x every codec x {compiled, pure-Python} builder is built, "
+            "validated structurally against the format definition and decoded by {compiled, pure-Python, reference} readers; "
+            "batch_size limits around the encoded size, producer-field extremes, reference-built control / LogAppendTime / "
+            "compacted batches, every concatenation of 1..3 batches of mixed magic with every trailing partial batch.",
+            "Trusted: vf.krecords (reference codec written from the format definition), zlib/cramjam primitives. "
+            "Byte-identical output of the two builders is not demanded.", "3/C09"),
+    "C11": (EX, "exhaustive bounded input enumeration vs independent hand-written protocol tables",
+            "Every RequestStruct/Response class found by reflection x each field in turn at every boundary value of its wire "
+            "type is encoded and compared byte for byte with an independent table-driven encoder, decoded back, and the "
+            "reply the reference encodes for the request's header version is parsed through RESPONSE_TYPE and the chosen "
+            "header form; every Request builder x every broker range 0<=min<=max<=max_known+1 (and absent) x its parameter "
+            "grid: header version = highest common one, IncompatibleBrokerVersion for the five named parameter kinds.",
+            "Trusted: vf.kwire tables (transcribed by hand from the Kafka message definitions, self-tested on the byte "
+            "strings pinned in the repository's tests). Value vectors are 1-wise (one field off default at a time).", "3/C11"),
+    "C14": (EX, "exhaustive bounded input enumeration vs independent statements of validity and balance",
+            "Every layout of <=4 members x <=3 topics x {no metadata, 0..4 partitions} x every non-empty subscription per "
+            "member through the real range, round-robin and sticky assignors (sticky also with previous-assignment user "
+            "data) on a real ClusterMetadata: each partition of each subscribed topic with metadata has exactly one owner "
+            "who subscribes to it, nothing else is assigned; range per topic and round-robin with identical subscriptions "
+            "within one; sticky balanced in the KIP-54 sense.",
+            "Quick tier: the <=3-member / <=2-topic slice plus small 4x3 layouts; thorough: the full bounded space. Random "
+            "layouts beyond the bound are not covered.", "3/C14"),
+})
+
 NOT_APPLICABLE = {}
 
 
